@@ -350,7 +350,7 @@ Section LockInstall.
 End LockInstall.
 
 (* ---- how a lock entry is read back: filterPackages ---------------------------- *)
-Record cand := { k_name : string; k_version : string; k_provides : list string; k_pinned : string; k_dq : bool }.
+Record cand := { k_name : string; k_version : string; k_provides : list string; k_deps : list string; k_pinned : string; k_dq : bool }.
 
 (* the version test of filterPackages for one candidate *)
 Definition version_admits (dep : Z) (req : mver) (k : cand) : bool :=
@@ -377,3 +377,11 @@ Definition filter_for (c : constraint) (cands : list cand) : list cand :=
        | None => []            (* "if the required version is invalid ... we return no matches" *)
        | Some req => filter (fun k => negb (k_dq k) && pin_ok k && version_admits (c_dep c) req k) cands
        end.
+
+(* nameMap[name]: the packages called [name] and those providing it *)
+Definition cands_of (U : list cand) (name : string) : list cand :=
+  filter (fun k => String.eqb (k_name k) name ||
+                   existsb (fun prov => String.eqb (c_name (resolve_constraint prov)) name) (k_provides k)) U.
+(* the locked world derived from an install set: one exact entry per member *)
+Definition lock_entry_of (k : cand) : string := k_name k ++ "=" ++ k_version k.
+Definition lock_of (S : list cand) : list string := List.map lock_entry_of S.
